@@ -168,6 +168,19 @@ func (s *Scn) GenTx(view *simnode.Node, mix Mix) (*types.Transaction, string) {
 			}
 		}
 	}
+	// ... and who has merely ASKED to delegate to whom (the switch is applied with the next identity-update block): the
+	// named pool is not the asker's pool yet - a kill-delegator from it must be refused. Read through a private
+	// read-only view: the accessor creates the switch object when it is missing.
+	if period == state.NonePeriod && mix.Identity && mix.Adversarial > 0 {
+		if ro, err := view.App.Readonly(view.Chain.Head.Height()); err == nil {
+			for _, d := range ro.State.Delegations() {
+				if p := s.byAddr[d.Delegatee]; p != nil && st.GetBalance(p.Addr).Cmp(minBal) > 0 && st.Delegatee(d.Delegator) == nil {
+					addr := d.Delegator
+					add(cand{kind: "killdelegator", sender: p, to: &addr})
+				}
+			}
+		}
+	}
 	if len(kinds) == 0 {
 		return nil, ""
 	}
